@@ -201,6 +201,8 @@ class OpsMixin(object):
             return seq.hi - seq.lo
         if seq.kind == "seqmap":
             return self.seq_len(seq.seq)
+        if seq.kind != "concat":
+            raise AnalysisError("length of a %s sequence" % seq.kind)
         total = ep.const(0)
         for p in seq.parts:
             total = total + self.seq_len(p)
@@ -308,7 +310,17 @@ class OpsMixin(object):
                 for other, expr in c.class_attrs.items():
                     if other != attr and any(isinstance(n, ast.Name) and n.id == other for n in ast.walk(c.class_attrs[attr])):
                         env.vars[other] = self.class_attr(c, None, other, node)
-                return self.eval(c.class_attrs[attr], env)
+                v = self.eval(c.class_attrs[attr], env)
+                # descriptor protocol for plain attributes of the class body
+                if isinstance(v, StaticV):
+                    return v.fn
+                if isinstance(v, ClassMethodV):
+                    if isinstance(v.fn, FuncV):
+                        return FuncV(v.fn.fi, v.fn.closure, ClassV(ci))
+                    self.err(node, "classmethod() of %r" % (v.fn,))
+                if isinstance(v, FuncV) and v.selfv is None and inst is not None and not v.fi.is_staticmethod:
+                    return FuncV(v.fi, v.closure, inst)       # a function stored on the class is a method of its instances
+                return v
         if attr == "__class__" and inst is not None:
             return ClassV(ci)
         if attr == "__name__":
@@ -859,12 +871,48 @@ class OpsMixin(object):
             return Const("".join(o.text for o in out))
         return StrV(SCat(out))
 
+    def _concat_all(self, seq, node):
+        """output tree of ''.join(seq) for lists built by appends in (nested) loops"""
+        if isinstance(seq, ListV):
+            parts = [to_node(i) for i in seq.items]
+            for t in (getattr(seq, "tail", None) or []):
+                parts.append(self._concat_all(t, node))
+            return SCat(parts)
+        if isinstance(seq, SeqV) and seq.kind == "concat":
+            return SCat([self._concat_all(p, node) for p in seq.parts])
+        if isinstance(seq, SeqV) and seq.kind == "nested":
+            body = SCat([self._concat_all(p, node) for p in seq.parts])
+            if seq.seq is not None:
+                return SSeqRep(seq.var, seq.seq.key(), body)
+            return SRep(seq.var, seq.lo, seq.hi, body)
+        if isinstance(seq, SeqV) and seq.kind in ("family", "seqmap"):
+            var, lo, hi, elem, sv = self.loop_binder(seq, node)
+            body = to_node(elem)
+            return SSeqRep(var, sv.key(), body) if sv is not None else SRep(var, lo, hi, body)
+        if isinstance(seq, SeqV) and seq.kind == "guarded":
+            nd = self._concat_all(seq.part, node)
+            for c, v in reversed(seq.conds):
+                nd = SAlt(c, nd, SLit("")) if v else SAlt(c, SLit(""), nd)
+            return nd
+        self.err(node, "join over %r" % (seq,))
+
+    def _has_guarded(self, seq):
+        if isinstance(seq, SeqV):
+            if seq.kind == "guarded":
+                return True
+            return any(self._has_guarded(p) for p in getattr(seq, "parts", []) or [])
+        if isinstance(seq, ListV):
+            return any(self._has_guarded(t) for t in (getattr(seq, "tail", None) or []))
+        return False
+
     def join(self, sep, seq, node):
         if not (isinstance(sep, Const) and isinstance(sep.v, str)):
             sepn = to_node(sep)
         else:
             sepn = SLit(sep.v)
         seq = seq if isinstance(seq, ChunkListV) else self.as_iterable(seq, node)
+        if isinstance(sepn, SLit) and sepn.text == "" and isinstance(seq, SeqV) and seq.kind in ("concat", "nested"):
+            return StrV(self._concat_all(seq, node))
         if isinstance(seq, ListV):
             if all(isinstance(i, Const) and isinstance(i.v, str) for i in seq.items) and isinstance(sepn, SLit):
                 return Const(sepn.text.join(i.v for i in seq.items))
@@ -900,6 +948,57 @@ class OpsMixin(object):
                 return StrV(SSeqRep(var, sv.key(), body) if sv is not None else SRep(var, lo, hi, body))
             return StrV(SJoin(sepn, var, lo, hi, sv, to_node(elem)))
         self.err(node, "join over %r" % (seq,))
+
+
+def _concat_all_doc():
+    """''.join(xs) for a list built by (nested) loops is the concatenation of its pieces, loop by loop"""
+
+
+class StaticV(V):
+    """staticmethod(f) as a value (class attribute): attribute access hands out f itself"""
+    def __init__(self, fn):
+        self.fn = fn
+
+    def key(self):
+        return ("staticmethod", self.fn.key())
+
+
+class ClassMethodV(V):
+    def __init__(self, fn):
+        self.fn = fn
+
+    def key(self):
+        return ("classmethod", self.fn.key())
+
+
+class PartialV(object):
+    """functools.partial(f, *args, **kwargs): calling it calls f with the frozen arguments first"""
+    def __init__(self, fn, args, kwargs):
+        self.fn, self.args, self.kwargs = fn, list(args), dict(kwargs)
+
+    def m___call__(self, I, args, kwargs):
+        kw = dict(self.kwargs)
+        kw.update(kwargs)
+        return I.call(self.fn, self.args + list(args), kw)
+
+    def get_func(self, I):
+        return self.fn
+
+
+class AttrGetter(object):
+    """operator.attrgetter(name) / operator.itemgetter(i)"""
+    def __init__(self, kind, what):
+        self.kind, self.what = kind, what
+
+    def m___call__(self, I, args, kwargs):
+        if kwargs or len(args) != 1:
+            raise AnalysisError("operator.%sgetter object called with %d arguments" % (self.kind, len(args)))
+        if self.kind == "attr":
+            v = args[0]
+            for part in self.what.split("."):
+                v = I.getattr(v, part)
+            return v
+        return I.getitem(args[0], self.what)
 
 
 class BoundTupleOf(V):
